@@ -1,7 +1,7 @@
 (* Dispatch table of model units for the correspondence check (val -> val). *)
 From Coq Require Import String.
 From V Require Import Prelude.Base Prelude.Val Prelude.TrueDiv gen.Kernels.
-From V Require Import Model.Interval Model.Crypto Model.Sym Model.Types Model.Chain.
+From V Require Import Model.Interval Model.Crypto Model.Sym Model.Types Model.Chain Model.Dns.
 
 Definition hash_of_id (i : Z) : option hash :=
   if i =? 1 then Some SHA1 else if i =? 2 then Some SHA256 else if i =? 3 then Some SHA384
@@ -42,10 +42,33 @@ Definition u_chain_l1 (a : val) : val :=
   | _ => bad
   end.
 
+Definition srv_of_val (v : val) : option srv :=
+  match v with
+  | VL [VS t; VI p; VI w; VI pr] => Some {| srv_target := t; srv_port := p; srv_weight := w; srv_priority := pr |}
+  | _ => None
+  end.
+Fixpoint srvs_of_vals (l : list val) : option (list srv) :=
+  match l with
+  | [] => Some []
+  | v :: r => match srv_of_val v, srvs_of_vals r with Some a, Some m => Some (a :: m) | _, _ => None end
+  end.
+Definition val_of_srv (a : srv) : val := VL [VS (srv_target a); VI (srv_port a); VI (srv_weight a); VI (srv_priority a)].
+Definition u_dns_pick (a : val) : val :=
+  match a with
+  | VL [VI _flavour; dom; VL answers] =>
+    let d := match dom with VS s => Some (Some s) | VN => Some None | _ => None end in
+    match d, srvs_of_vals answers with
+    | Some d, Some l => VL [VS (query_name d); VS k_srv_rdtype; vbool k_srv_search; vres val_of_srv (get_highest_answer l)]
+    | _, _ => bad
+    end
+  | _ => bad
+  end.
+
 Open Scope string_scope.
 Definition units : list (string * (val -> val)) :=
   [ ("echo", fun v => v); ("interval", u_interval); ("truediv", u_truediv);
-    ("chain.l2", u_chain_l2); ("chain.l1", u_chain_l1) ].
+    ("chain.l2", u_chain_l2); ("chain.l1", u_chain_l1);
+    ("dns.pick", u_dns_pick) ].
 
 Fixpoint lookup (n : string) (l : list (string * (val -> val))) : option (val -> val) :=
   match l with
